@@ -53,6 +53,24 @@ def handle : Handler
         let r ← opnd neg e d p.toNat (p.toNat + 1)
         some (out (mpf_mul_ui 0 (mkSt r default default) .r v.toNat))
       else none
+  | "as7_mul_2exp", [.num m, .num p, .num neg, .num e, .vec d, .num k] =>
+      if !precOk p || k < 0 || k ≥ 2 ^ 32 then none else
+      if m = 0 then do
+        let u ← opnd neg e d 0 1
+        some (out (mpf_mul_2exp 0 (mkSt (dest p.toNat) u default) .u k.toNat))
+      else if m = 1 then do
+        let r ← opnd neg e d p.toNat (p.toNat + 1)
+        some (out (mpf_mul_2exp 0 (mkSt r default default) .r k.toNat))
+      else none
+  | "as7_div_2exp", [.num m, .num p, .num neg, .num e, .vec d, .num k] =>
+      if !precOk p || k < 0 || k ≥ 2 ^ 32 then none else
+      if m = 0 then do
+        let u ← opnd neg e d 0 1
+        some (out (mpf_div_2exp 0 (mkSt (dest p.toNat) u default) .u k.toNat))
+      else if m = 1 then do
+        let r ← opnd neg e d p.toNat (p.toNat + 1)
+        some (out (mpf_div_2exp 0 (mkSt r default default) .r k.toNat))
+      else none
   | "as7_add", [.num m, .num p, .num un, .num ue, .vec ud, .num vn, .num ve, .vec vd] =>
       if !precOk p then none else do
         let P := p.toNat
